@@ -229,7 +229,27 @@ func VH_C13_gate() {
 	l := Logger{w: w, level: ll, sampler: bs}
 	disabled := zzverif.Bool()
 	DisableSampling(disabled)
-	l.WithLevel(lvl).Msg("m")
+	// every way an event is started goes through the gate once: WithLevel, a level method, and
+	// the fmt-style conveniences (which log at debug level)
+	switch zzverif.Choice(6) {
+	case 0:
+		l.WithLevel(lvl).Msg("m")
+	case 1:
+		lvl = DebugLevel
+		l.Print("m")
+	case 2:
+		lvl = DebugLevel
+		l.Printf("m")
+	case 3:
+		lvl = DebugLevel
+		l.Println("m")
+	case 4:
+		lvl = WarnLevel
+		l.Warn().Msg("m")
+	case 5:
+		lvl = ErrorLevel
+		l.Err(errV).Msg("m")
+	}
 	passes := lvl >= ll && lvl >= g && lvl != Disabled
 	if !passes {
 		zzverif.Assert(bs.counter == c, "an event rejected by the level gate consumes no sampler budget")
